@@ -8,6 +8,11 @@ Evidence reports these units under bounded_checks, not as unbounded proofs.
 """
 from pyvc.api import *  # noqa: F403
 
+try:
+    from ipv8.messaging.serialization import default_serializer  # noqa: F401
+except ImportError:
+    pass
+
 from contracts.common import RUST_MODELS
 
 try:
@@ -169,8 +174,19 @@ contract(f"{NET}::Network.add_verified_peer", "add_verified_peer.keeps-service-c
 contract(f"{NET}::Network.add_verified_peer", "add_verified_peer.blacklisted-mid", vars=BASE, instances=SMALL,
          requires=[*PRE, "k3 != k1", "k3 != k2"],
          call="(net.blacklist_mids.append(p3.mid), net.add_verified_peer(p3))", raises=[],
-         ensures=["inv(net)", "net.get_verified_by_public_key_bin(k3) is None", "all(key(q) != k3 for q in net.verified_peers)"],
-         bounded=BOUND, replay=KEYS, note="blacklisted identities never become verified. " + BOUND)
+         ensures=["inv(net)", "net.get_verified_by_public_key_bin(k3) is None", "all(key(q) != k3 for q in net.verified_peers)",
+                  # ... and leave no other trace either: no walkable address, no service entry
+                  "len(net._all_addresses) == old(len(net._all_addresses))",
+                  "len(net.services_per_peer) == old(len(net.services_per_peer))"],
+         bounded=BOUND, replay=KEYS, note="blacklisted identities never become verified and their addresses never become walkable. " + BOUND)
+
+# the snapshot lists the (real) preferred address of EVERY verified peer - whether or not that address is also known as walkable
+contract(f"{NET}::Network.snapshot", "snapshot.lists-every-verified-peer", vars=BASE, instances=SHAPES, requires=PRE,
+         call="net.snapshot()", raises=[],
+         stubs={"ipv8/messaging/serialization.py::Serializer.pack": {"event": "pack", "returns": BYTES, "note": "the address codec: C02"}},
+         ensures=["[(e.args[1], e.args[2]) for e in calls('pack')] == [('address', q.address) for q in net.verified_peers"
+                  " if q.address != ('0.0.0.0', 0)]", "inv(net)"],
+         bounded=BOUND, replay=KEYS, note="loading the snapshot into a fresh graph yields exactly the verified peers' addresses. " + BOUND)
 
 for _which in (0, 1):
     contract(f"{NET}::Network.add_verified_peer", f"add_verified_peer.blacklisted-address[{_which}]",
